@@ -196,6 +196,7 @@ def _plugin_task(args):
         ref = {}
         for mk, mp_ in models.items():
             digs = []
+            uuid_sets = []
             for rep in range(2):
                 o, t = os.path.join(work, "ref_o"), os.path.join(work, "ref_t")
                 os.makedirs(o), os.makedirs(t)
@@ -205,19 +206,24 @@ def _plugin_task(args):
                 if r.returncode != 0:
                     out["bad"].append(("reference-fails", plugin, "reference run of %s on model %s exits %d: %s" % (plugin, mk, r.returncode, (r.stderr or r.stdout)[-200:]), {"history": ["Fresh", "Run(%s)" % mk]}))
                 digs.append(owned_digest(o, t))
-                if rep == 0:
-                    base_uuid_like = set()
-                    for root in (o, t):
-                        for d, _, files in os.walk(root):
-                            for f in files:
-                                with open(os.path.join(d, f), "rb") as fh:
-                                    base_uuid_like |= set(UUID_RE.findall(fh.read()))
+                uuid_like = set()
+                for root in (o, t):
+                    for d, _, files in os.walk(root):
+                        for f in files:
+                            with open(os.path.join(d, f), "rb") as fh:
+                                uuid_like |= set(UUID_RE.findall(fh.read()))
+                uuid_sets.append(uuid_like)
+                if rep == 1:
+                    # a *random* identifier differs between two processes; a uuid-shaped string that is the same in
+                    # both runs is a constant of the plugin (or comes from the model), not an internal identifier
                     in_model = set()
                     for one in mp_:
                         with open(one, "rb") as fh:
                             in_model |= set(UUID_RE.findall(fh.read()))
-                    if base_uuid_like - in_model:
-                        out["bad"].append(("uuid-leak", plugin, "uuid-shaped strings not present in the model appear in the output of %s: %s" % (plugin, sorted(base_uuid_like - in_model)[:2]), {"history": ["Fresh", "Run(%s)" % mk]}))
+                    unstable = (uuid_sets[0] ^ uuid_sets[1]) - in_model
+                    if unstable:
+                        out["bad"].append(("uuid-leak", plugin, "uuid-shaped strings that differ between two fresh processes appear in the output of %s: %s" % (plugin, sorted(unstable)[:2]), {"history": ["Fresh", "Run(%s)" % mk]}))
+                    out["uuid_shaped_constants_in_output"] = len((uuid_sets[0] & uuid_sets[1]) - in_model)
                 rm(o), rm(t)
             if digs[0] != digs[1]:
                 diff = sorted(set(digs[0].items()) ^ set(digs[1].items()))[:3]
